@@ -40,6 +40,7 @@ type Contract struct {
 	Pure      bool
 	Inline    bool
 	Getter    bool // result is a function of receiver and arguments only; no effects (trusted)
+	Preserves []string // type names whose objects keep their content (used with an unspecified/heap footprint)
 	Safe      bool
 	Requires  []*Clause
 	Ensures   []*Clause
@@ -381,7 +382,7 @@ func (p *parser) postfix(e SExpr) SExpr {
 // contract file parsing
 
 var clauseKeywords = map[string]bool{"requires": true, "ensures": true, "modifies": true, "loop": true, "at": true,
-	"safe": true, "pure": true, "inline": true, "getter": true, "end": true, "let": true, "props": true, "trusted": true}
+	"safe": true, "pure": true, "inline": true, "getter": true, "preserves": true, "end": true, "let": true, "props": true, "trusted": true}
 
 // parseContractFile reads every //@ line of a file.
 func (p *Prog) parseContractFile(file string) error {
@@ -597,6 +598,14 @@ func (ct *Contract) addClause(txt, file string, line int) error {
 	case "getter":
 		ct.Getter = true
 		ct.HasMod = true
+	case "preserves":
+		// preserves "T1", "T2": objects of these dynamic types are not modified
+		for _, part := range strings.Split(rest, ",") {
+			part = strings.Trim(strings.TrimSpace(part), "\"")
+			if part != "" {
+				ct.Preserves = append(ct.Preserves, part)
+			}
+		}
 	case "trusted":
 		ct.Extern = true
 	case "props":
